@@ -16,6 +16,33 @@ import (
 
 var skolemCount int
 
+// classSkolems: skolem constants that stand for a key class (their quantifier had no range guard) rather than an index
+var classSkolems = map[*Term]bool{}
+
+// isRanged: the quantified variable is guarded by a range (an index quantifier); otherwise it ranges over key classes
+func isRanged(body, x *Term) bool {
+	if body.Op != "=>" || len(body.Args) != 2 {
+		return false
+	}
+	g := body.Args[0]
+	gs := []*Term{g}
+	if g.Op == "and" {
+		gs = g.Args
+	}
+	lo, hi := false, false
+	for _, c := range gs {
+		if len(c.Args) == 2 && (c.Op == "<=" || c.Op == "<") {
+			if c.Args[1] == x && !hasBound(c.Args[0]) {
+				lo = true
+			}
+			if c.Args[0] == x && !hasBound(c.Args[1]) {
+				hi = true
+			}
+		}
+	}
+	return lo && hi
+}
+
 func isQuant(t *Term, op string) bool {
 	return t.Op == op && len(t.Args) == 2 && t.Args[0].Sort == "binder"
 }
@@ -88,6 +115,9 @@ func skolemise(goal *Term, sk *[]*Term) *Term {
 		skolemCount++
 		c := konst(fmt.Sprintf("sk!%d", skolemCount), SInt)
 		*sk = append(*sk, c)
+		if !isRanged(goal.Args[1], v) {
+			classSkolems[c] = true
+		}
 		return skolemise(substVar(goal.Args[1], v, c, map[*Term]*Term{}), sk)
 	}
 	return goal
@@ -140,6 +170,9 @@ func collectBounds(t *Term, seen map[*Term]bool, out *[]*Term) {
 	}
 }
 
+// classCands: which candidates are key classes (set by groundScript; nil = no distinction)
+var classCands map[*Term]bool
+
 // instances of the bounded universal quantifiers in positive position of an assumption, at the candidate terms.
 func instantiate(a *Term, guards []*Term, cands []*Term, depth int, out *[]*Term, budget *int) {
 	if *budget <= 0 {
@@ -157,9 +190,13 @@ func instantiate(a *Term, guards []*Term, cands []*Term, depth int, out *[]*Term
 		if !ok || v.Sort != SInt {
 			return
 		}
+		ranged := isRanged(a.Args[1], v)
 		for _, c := range cands {
 			if *budget <= 0 {
 				return
+			}
+			if classCands != nil && ranged == classCands[c] {
+				continue // index quantifiers take index candidates, class quantifiers class candidates
 			}
 			b := substVar(a.Args[1], v, c, map[*Term]*Term{})
 			*budget--
@@ -193,29 +230,44 @@ func hasQuantPos(t *Term) bool {
 	return false
 }
 
-// instantiatedScript: assumptions + ground instances, skolemised goal. Empty when there is nothing to instantiate.
-func instantiatedScript(as []*Term, goal *Term) string {
-	var sk []*Term
-	g := skolemise(goal, &sk)
-	var bounds []*Term
-	seen := map[*Term]bool{}
-	for _, a := range as {
-		if hasBound(a) {
-			collectBounds(a, seen, &bounds)
-		}
-	}
-	collectBounds(goal, seen, &bounds)
+// candidates: the skolem constants and their successors, then the range bounds of the goal, then those of the
+// assumptions, most recent assumption first (the state the goal speaks about is described last).
+func candidates(as []*Term, goal *Term, sk []*Term, max int) []*Term {
 	cands := append([]*Term{}, sk...)
+	for _, c := range sk {
+		cands = append(cands, add(c, intLit(1)))
+	}
 	have := map[*Term]bool{}
 	for _, c := range cands {
 		have[c] = true
 	}
-	for _, b := range bounds {
-		if !have[b] && !hasBound(b) && len(cands) < 14 {
-			have[b] = true
-			cands = append(cands, b)
+	addAll := func(bs []*Term) {
+		for _, b := range bs {
+			if !have[b] && !hasBound(b) && len(cands) < max {
+				have[b] = true
+				cands = append(cands, b)
+			}
 		}
 	}
+	var gb []*Term
+	collectBounds(goal, map[*Term]bool{}, &gb)
+	addAll(gb)
+	seen := map[*Term]bool{}
+	for i := len(as) - 1; i >= 0; i-- {
+		if hasBound(as[i]) {
+			var bs []*Term
+			collectBounds(as[i], seen, &bs)
+			addAll(bs)
+		}
+	}
+	return cands
+}
+
+// instantiatedScript: assumptions + ground instances, skolemised goal. Empty when there is nothing to instantiate.
+func instantiatedScript(as []*Term, goal *Term) string {
+	var sk []*Term
+	g := skolemise(goal, &sk)
+	cands := candidates(as, goal, sk, 20)
 	if len(cands) == 0 {
 		return ""
 	}
@@ -230,4 +282,291 @@ func instantiatedScript(as []*Term, goal *Term) string {
 		return ""
 	}
 	return script(append(append([]*Term{}, as...), insts...), g, nil)
+}
+
+// groundScript: like instantiatedScript, but the quantified assumptions themselves are left out — only their
+// quantifier-free parts and the ground instances remain (plus axioms that carry an explicit pattern). Fewer
+// assumptions, so unsat is still a proof; without quantifiers to instantiate the solvers answer at once.
+func groundScript(as []*Term, goal *Term) string {
+	var sk []*Term
+	g := skolemise(goal, &sk)
+	cands := candidates(as, goal, sk, 20)
+	classCands = map[*Term]bool{}
+	defer func() { classCands = nil }()
+	for _, c := range sk {
+		if classSkolems[c] {
+			classCands[c] = true
+			classCands[add(c, intLit(1))] = true
+		}
+	}
+	// key-class terms: ground indices into the per-container membership arrays, in the goal and the ground assumptions
+	var kc []*Term
+	seenK := map[*Term]bool{}
+	collectClassTerms(g, seenK, &kc)
+	for i := len(as) - 1; i >= 0 && len(kc) < 10; i-- {
+		if !hasBound(as[i]) {
+			collectClassTerms(as[i], seenK, &kc)
+		}
+	}
+	for _, c := range kc {
+		if len(kc) > 10 {
+			kc = kc[:10]
+		}
+		if !classCands[c] {
+			classCands[c] = true
+			cands = append(cands, c)
+		}
+	}
+	var ground []*Term // quantifier-free parts of the assumptions (and pattern-carrying axioms)
+	var quant []*Term  // assumptions with quantifiers
+	for _, a := range as {
+		switch {
+		case !hasBound(a):
+			ground = append(ground, a)
+		case hasPattern(a):
+			ground = append(ground, a)
+		default:
+			if r := stripQuant(a); r != tTrue {
+				ground = append(ground, r)
+			}
+			quant = append(quant, a)
+		}
+	}
+	// round 1: instances at the candidates; existentials they assert become witnesses (fresh constants)
+	var insts []*Term
+	total := 2500
+	var wit []*Term
+	for qi := len(quant) - 1; qi >= 0 && total > 0; qi-- { // newest first
+		var is []*Term
+		budget := 160
+		instantiate(quant[qi], nil, cands, 1, &is, &budget)
+		total -= len(is)
+		for _, i := range is {
+			if mentionsAny(i, sk) {
+				// witnesses only for the instances about the goal's own skolem constants
+				insts = append(insts, elimExists(i, &wit))
+			} else {
+				insts = append(insts, i)
+			}
+		}
+	}
+	// round 1b: key-class terms that first appear in the instances about the skolem constants (x[sk]'s class, ...)
+	{
+		var kc2 []*Term
+		for _, i := range insts {
+			if mentionsAny(i, sk) && !hasBound(i) {
+				collectClassTerms(i, seenK, &kc2)
+			}
+		}
+		if len(kc2) > 12 {
+			kc2 = kc2[:12]
+		}
+		var fresh []*Term
+		for _, c := range kc2 {
+			if !classCands[c] {
+				classCands[c] = true
+				fresh = append(fresh, c)
+			}
+		}
+		if len(fresh) > 0 {
+			for qi := len(quant) - 1; qi >= 0; qi-- {
+				b2 := 100
+				var is []*Term
+				instantiate(quant[qi], nil, fresh, 0, &is, &b2)
+				insts = append(insts, is...)
+			}
+			cands = append(cands, fresh...)
+		}
+	}
+	// round 2: the assumptions again at the witnesses (only instances that mention a witness are new)
+	if len(wit) > 0 && len(wit) <= 48 {
+		for qi := len(quant) - 1; qi >= 0; qi-- {
+			var is []*Term
+			b2 := 200
+			instantiate(quant[qi], nil, wit, 0, &is, &b2)
+			for _, i := range is {
+				var w2 []*Term
+				insts = append(insts, elimExists(i, &w2))
+			}
+		}
+		cands = append(cands, wit...)
+	}
+	// an existential goal is proved by one of the candidates
+	g = existsToCandidates(g, cands)
+	return script(append(ground, insts...), g, nil)
+}
+
+// elimExists replaces existential quantifiers in positive position of a ground instance by fresh witness constants.
+func elimExists(t *Term, wit *[]*Term) *Term {
+	switch {
+	case !hasBound(t):
+		return t
+	case t.Op == "=>" && len(t.Args) == 2 && !hasBound(t.Args[0]):
+		return implies(t.Args[0], elimExists(t.Args[1], wit))
+	case t.Op == "and":
+		var cs []*Term
+		for _, a := range t.Args {
+			cs = append(cs, elimExists(a, wit))
+		}
+		return and(cs...)
+	case isQuant(t, "exists"):
+		v, ok := binderVar(t.Args[0])
+		if !ok {
+			return t
+		}
+		skolemCount++
+		c := konst(fmt.Sprintf("wit!%d", skolemCount), SInt)
+		*wit = append(*wit, c)
+		return elimExists(substVar(t.Args[1], v, c, map[*Term]*Term{}), wit)
+	}
+	return t
+}
+
+func mentionsAny(t *Term, cs []*Term) bool {
+	set := map[*Term]bool{}
+	for _, c := range cs {
+		set[c] = true
+	}
+	seen := map[*Term]bool{}
+	var walk func(x *Term) bool
+	walk = func(x *Term) bool {
+		if set[x] {
+			return true
+		}
+		if seen[x] {
+			return false
+		}
+		seen[x] = true
+		for _, a := range x.Args {
+			if walk(a) {
+				return true
+			}
+		}
+		return false
+	}
+	return walk(t)
+}
+
+// existsToCandidates: in positive position of the goal, (exists x. P) is replaced by the disjunction of P at the
+// candidates (each disjunct implies the existential).
+func existsToCandidates(g *Term, cands []*Term) *Term {
+	switch {
+	case g.Op == "=>" && len(g.Args) == 2:
+		return mk(SBool, "=>", g.Args[0], existsToCandidates(g.Args[1], cands))
+	case g.Op == "and":
+		args := make([]*Term, len(g.Args))
+		for i, a := range g.Args {
+			args[i] = existsToCandidates(a, cands)
+		}
+		return mk(SBool, "and", args...)
+	case isQuant(g, "exists"):
+		v, ok := binderVar(g.Args[0])
+		if !ok || len(cands) == 0 {
+			return g
+		}
+		var ds []*Term
+		for _, c := range cands {
+			ds = append(ds, substVar(g.Args[1], v, c, map[*Term]*Term{}))
+		}
+		return or(ds...)
+	}
+	return g
+}
+
+// collectClassTerms: ground terms k used as (select M k) with M a membership array (Array Int Bool)
+func collectClassTerms(t *Term, seen map[*Term]bool, out *[]*Term) {
+	if seen[t] {
+		return
+	}
+	seen[t] = true
+	if t.Op == "select" && len(t.Args) == 2 && t.Args[0].Sort == sortArrIB && !hasBound(t.Args[1]) && !isIntLit(t.Args[1]) {
+		dup := false
+		for _, o := range *out {
+			if o == t.Args[1] {
+				dup = true
+			}
+		}
+		if !dup {
+			*out = append(*out, t.Args[1])
+		}
+	}
+	for _, a := range t.Args {
+		collectClassTerms(a, seen, out)
+	}
+}
+
+func hasPattern(t *Term) bool {
+	if t.Op == "!" {
+		return true
+	}
+	for _, a := range t.Args {
+		if hasPattern(a) {
+			return true
+		}
+	}
+	return false
+}
+
+// stripQuant removes the quantified conjuncts in positive position (a weaker formula); anything else that still
+// mentions a bound variable makes the whole formula true (dropped).
+func stripQuant(t *Term) *Term {
+	switch {
+	case !hasBound(t):
+		return t
+	case t.Op == "=>" && len(t.Args) == 2 && !hasBound(t.Args[0]):
+		return implies(t.Args[0], stripQuant(t.Args[1]))
+	case t.Op == "and":
+		var cs []*Term
+		for _, a := range t.Args {
+			cs = append(cs, stripQuant(a))
+		}
+		return and(cs...)
+	}
+	return tTrue
+}
+
+// splitAtom: for a goal (=> reach body) whose reach is a disjunction of path conditions (control flow merged), an
+// atom that is asserted on one path and denied on another. The goal is then proved once under the atom and once
+// under its negation (a sound case split that the solvers often do not find by themselves).
+func splitAtom(goal *Term) *Term {
+	if goal.Op != "=>" || len(goal.Args) != 2 {
+		return nil
+	}
+	pos := map[*Term]int{}
+	neg := map[*Term]int{}
+	var order []*Term
+	var walk func(t *Term, depth int)
+	walk = func(t *Term, depth int) {
+		if depth > 6 {
+			return
+		}
+		switch {
+		case t.Op == "and" || t.Op == "or":
+			for _, a := range t.Args {
+				walk(a, depth+1)
+			}
+		case t.Op == "not":
+			a := t.Args[0]
+			if a.Op != "and" && a.Op != "or" && !hasBound(a) {
+				if neg[a] == 0 && pos[a] == 0 {
+					order = append(order, a)
+				}
+				neg[a]++
+			}
+		default:
+			if t.Sort == SBool && !hasBound(t) && t != tTrue && t != tFalse {
+				if neg[t] == 0 && pos[t] == 0 {
+					order = append(order, t)
+				}
+				pos[t]++
+			}
+		}
+	}
+	walk(goal.Args[0], 0)
+	for _, a := range order {
+		if pos[a] > 0 && neg[a] > 0 {
+			return a
+		}
+	}
+	return nil
 }
